@@ -189,3 +189,25 @@ mod arb {
         fn any() -> Self { DMat4::from_cols(kani::any(), kani::any(), kani::any(), kani::any()) }
     }
 }
+
+// ---- sums of single-rounded terms in ANY association order (tree_in, DESIGN 3.3) ----
+macro_rules! sum_trees {
+    ($s2:ident, $s3:ident, $s4:ident, $t:ty, $leq:ident) => {
+        #[inline(always)]
+        pub fn $s2(r: $t, a: $t, b: $t) -> bool { $leq(r, a + b) }
+        #[inline(always)]
+        pub fn $s3(r: $t, a: $t, b: $t, c: $t) -> bool {
+            $leq(r, (a + b) + c) || $leq(r, a + (b + c)) || $leq(r, (a + c) + b)
+        }
+        #[inline(always)]
+        pub fn $s4(r: $t, a: $t, b: $t, c: $t, d: $t) -> bool {
+            // 12 caterpillar trees ((p+q)+s)+u and 3 balanced trees (p+q)+(s+u)
+            $leq(r, ((a + b) + c) + d) || $leq(r, ((a + b) + d) + c) || $leq(r, ((a + c) + b) + d) || $leq(r, ((a + c) + d) + b)
+                || $leq(r, ((a + d) + b) + c) || $leq(r, ((a + d) + c) + b) || $leq(r, ((b + c) + a) + d) || $leq(r, ((b + c) + d) + a)
+                || $leq(r, ((b + d) + a) + c) || $leq(r, ((b + d) + c) + a) || $leq(r, ((c + d) + a) + b) || $leq(r, ((c + d) + b) + a)
+                || $leq(r, (a + b) + (c + d)) || $leq(r, (a + c) + (b + d)) || $leq(r, (a + d) + (b + c))
+        }
+    };
+}
+sum_trees!(sum2_32, sum3_32, sum4_32, f32, leq32);
+sum_trees!(sum2_64, sum3_64, sum4_64, f64, leq64);
